@@ -211,8 +211,9 @@ def extra_rejections(v, r, key):
         if c.k == "binop" and c.a[0] in ("Eq", "Ne") and any(strip(x).k == "field" and strip(x).a[1] == "payload_length" for x in (c.a[1], c.a[2])):
             continue
         # does one edge lead to Err only?
+        from kernel import feasible_reach
         tbs = {tb for _, tb in targets} | {otherwise}
-        dead = [tb for tb in tbs if not any(ob in cfg.reach(tb, avoid=(n,)) for ob in oks)]
+        dead = [tb for tb in tbs if not any(ob in feasible_reach(an, tb) for ob in oks)]
         if dead:
             out.append(short(cond, 100))
     return out
@@ -360,6 +361,13 @@ def cause_ok(ctx, f, an, bb, idx, s, var):
     if var == "InvalidRlpData":
         if f.name == "from" and "From<alloy_rlp::Error>" in f.path:
             return True, ""
+        # eagerly built argument of `slice.get(..).ok_or(E)`: the cause is the failed sub-slice
+        for b2, t in f.calls():
+            if t.callee and t.callee.name in ("ok_or", "ok_or_else") and len(t.args) == 2:
+                a0 = strip(an.operand_expr(t.args[0], b2.idx, len(b2.stmts)))
+                a1 = trace_local(an, t.args[1])
+                if a0.k == "call" and a0.a[0].name in ("get", "first", "last", "split_first", "checked_sub", "strip_prefix") and s.place.is_local() and a1 == s.place.local:
+                    return True, ""
         # explicit: must carry an alloy error and sit under a length/emptiness test of a value
         for d, cond, allowed, alll in cons:
             c = strip(cond)
